@@ -205,11 +205,34 @@ def step (st : St) (n : Nat) (ln : Line) : St × List String :=
         else ["mem", listTok now, toString r1.T, ph r1.onDisk, if r1.lastResume then "resume" else "ok"]
       let st1 := { st with sys := sys1 }
       let (st2, js) := judgeRd st1 n "subscribe" name (splitToks (o.getD 1 "-"))
-      let cov := if r0.onDisk then
+      let cov := (if ¬ r0.onDisk ∧ tokNat (a.getD 1 "0") > 0 then ["COV sub.idle-wakeup"] else []) ++ if r0.onDisk then
           (if ¬ now.isEmpty then ["COV sub.disk-delivers"] else if r0.lastResume then ["COV sub.disk-retry"] else ["COV sub.disk-nothing"])
         else (if r1.lastResume then ["COV sub.mem-resume-from-disk"] else []) ++ (if ¬ now.isEmpty then ["COV sub.mem-delivers"] else ["COV sub.mem-blocks"])
       let unsafeRead := ¬ r0.onDisk ∧ ¬ (s!"{readBranch st.sys.lb r0.T}" == "read.resume") ∧ st.sys.lb.dropped.any (fun t => decide (r0.T < (t : Int)))
       (st2, diff n ln model ++ js ++ cov ++ (if unsafeRead then ["COV sub.reads-past-recycled-unflushed"] else []))
+  | "rnest" =>
+    -- two overlapping readers (b runs inside a's callback): reads do not change the buffer, so the model
+    -- is "b's memory phase, a's memory phase" against the same state; b runs only if a delivers something
+    let na := a.getD 0 "r"; let nb := a.getD 1 "r"
+    match st.names.idxOf? na, st.names.idxOf? nb with
+    | some i, some k =>
+      let ra := st.sys.rds.getD i { t0 := 0, T := 0 }
+      let rb := st.sys.rds.getD k { t0 := 0, T := 0 }
+      if i = k ∨ ra.onDisk ∨ rb.onDisk then (st, diff n ln ["noop"] ++ ["COV rnest.noop"]) else
+      let sysA := SwV.Model.C22.step st.sys (.rstep i)
+      let ra1 := sysA.rds.getD i ra
+      let nowA := ra1.got.drop ra.got.length
+      let sysB := if nowA.isEmpty then sysA else SwV.Model.C22.step sysA (.rstep k)
+      let rb1 := sysB.rds.getD k rb
+      let nowB := rb1.got.drop rb.got.length
+      let ph (b : Bool) := if b then "disk" else "mem"
+      let tok (r1 : Rd) (now : List Nat) := ["mem", listTok now, toString r1.T, ph r1.onDisk, if r1.lastResume then "resume" else "ok"]
+      let model := tok ra1 nowA ++ (if nowA.isEmpty then ["mem", "-", toString rb.T, ph rb.onDisk, "notrun"] else tok rb1 nowB)
+      let st1 := { st with sys := sysB }
+      let (st2, ja) := judgeRd st1 n "subscribe" na (splitToks (o.getD 1 "-"))
+      let (st3, jb) := judgeRd st2 n "subscribe" nb (splitToks (o.getD 6 "-"))
+      (st3, diff n ln model ++ ja ++ jb ++ (if ¬ nowA.isEmpty ∧ ¬ nowB.isEmpty then ["COV sub.nested-overlap-both-deliver"] else ["COV sub.nested"]))
+    | _, _ => (st, diff n ln ["noop"])
   | "dreset" =>
     let cfg : Cfg := ⟨tokInt (a.getD 0 "0"), tokNat (a.getD 1 "0"), tokNat (a.getD 2 "0"), tokInt (a.getD 3 "0")⟩
     ({ dd := { lb := init cfg } }, ["COV dreset"])
